@@ -114,6 +114,10 @@ func (p *Point) String() string {
 // Satisfiable: some admissible non-self target exists.
 func (p *Point) Satisfiable() bool { return len(p.Cands) > 0 }
 
+// ResolveTagValue lets a check resolve placeholders in the value part of a tag before the model
+// interprets it (identity by default).
+var ResolveTagValue = func(s string) string { return s }
+
 // ParseTag splits a tag in the well-formed grammar the generators emit:
 // value[,name=item item...]* . No brackets, no spaces outside items.
 func ParseTag(s string) (val string, args map[string][]string) {
@@ -178,6 +182,7 @@ func Points(holder *Comp, pop []*Comp) []*Point {
 				}
 				p := &Point{Holder: holder, Path: idx, Field: f, Tag: tag, Settable: true}
 				p.Val, p.Args = ParseTag(tv)
+				p.Val = ResolveTagValue(p.Val)
 				p.Required = !IsOptional(p.Args)
 				p.Multi = f.Type.Kind() == reflect.Slice
 				resolve(p, pop)
